@@ -298,7 +298,9 @@ func kindSequences(n int) []string {
 		func(i int) string { return fmt.Sprintf("func f%d\n    print %d\nend\n", i, i) },
 		func(i int) string { return fmt.Sprintf("// c%d\n", i) },
 		func(i int) string { return "\n" },
-		func(i int) string { return fmt.Sprintf("on %s\n    print %d\nend\n", []string{"key", "down", "up", "move", "animate", "input"}[i%6], i) },
+		func(i int) string {
+			return fmt.Sprintf("on %s\n    print %d\nend\n", []string{"key", "down", "up", "move", "animate", "input"}[i%6], i)
+		},
 	}
 	var out []string
 	var rec func(prefix string, depth int, usedOn int)
